@@ -22,8 +22,8 @@ def c17(tier):
         runs.append(net("dist", 3, 30, 2))
         runs.append(net("dist", 4, 30, 2))
     else:
-        runs.append(H("c17_ser", "dist-asan", 16000, timeout_per_case=20, timeout_base=120))
-        runs.append(H("c17_ser", "dist", 30000, timeout_per_case=20, timeout_base=120))
+        runs.append(H("c17_ser", "dist-asan", 16000, params=dict(special_period=400), timeout_per_case=20, timeout_base=120))
+        runs.append(H("c17_ser", "dist", 30000, params=dict(special_period=400), timeout_per_case=20, timeout_base=120))
         runs.append(net("dist", 1, 300, 4))
         runs.append(net("dist", 2, 400, 4))
         runs.append(net("dist", 3, 300, 3))
